@@ -59,6 +59,9 @@ class ChannelItem(EFLRItem, DimensionedItem):
             **kwargs        :   Values of to be set as characteristics of the ChannelItem Attributes.
         """
 
+        if cast_dtype is not None:
+            ReprCodeConverter.validate_numpy_dtype(cast_dtype)  # before the channel is registered with the parent set
+
         # need the attribute defined for representation code check
         self._cast_dtype: Union[numpy_dtype_type, None] = None
 
